@@ -165,6 +165,13 @@ Definition Pb (c : case) (sd : sdecl) : bool :=
          (negb (has_new_spec sd) || marked_new sd q) &&
          negb (excluded_top sd q)
      end) (combine (seq 0 (length (o_params o))) (o_params o)) &&
+  (* completeness ("restricted to the marked fields WHEN any is marked", i.e. all eligible
+     fields otherwise): every selectable leaf that is not excluded, and is marked new if any
+     field is, is the field of some parameter (proved for the model as C02_parameter_list) *)
+  forallb (fun q =>
+     excluded_top sd q || (has_new_spec sd && negb (marked_new sd q)) ||
+     existsb (fun oq => match oq with Some q' => path_eqb q q' | None => false end) ppaths)
+    (selectable_leaves pkg fuel sd) &&
   (* declaration order, depth first *)
   increasing (map (fun oq => match oq with Some q => index_of q leaves 0 | None => None end) ppaths) None &&
   (* every other leaf: its default if it carries one, else zero *)
